@@ -276,6 +276,11 @@ class Recorder:
         return v
 
     def result(self, error=None):
+        if T.CROSS["checked"]:
+            self.notes.append(f"cvc5 cross-check: {T.CROSS['checked']} unsat verdicts re-decided, {T.CROSS['agree']} agree, {T.CROSS['inconclusive']} inconclusive, {len(T.CROSS['disagree'])} disagree")
+            if T.CROSS["disagree"]:
+                self.inconclusive.append(f"{self.task}: SOLVER DISAGREEMENT z3 unsat / cvc5 sat on {len(T.CROSS['disagree'])} queries")
+            T.CROSS.update(n=0, checked=0, agree=0, inconclusive=0, disagree=[])
         if T.BUDGET_EXHAUSTED:
             self.inconclusive.append(f"{self.task}: {T.BUDGET_EXHAUSTED}")
             T.BUDGET_EXHAUSTED = None
